@@ -50,8 +50,8 @@ func forcedPairs(rng *fw.Rng) []c01Prog {
 			case "loop":
 				body = &gen.Block{Kind: "loop", Default: -1, Var: "cntL", Bound: 2, Kids: []*gen.Block{in}}
 			case "condtask":
-				body = &gen.Block{Kind: "condtask", Default: -1, Kids: []*gen.Block{in, gen.T()},
-					Conds: []*gen.Cond{nil, {Kind: "var", Var: "v1", Op: ">", Val: 0}}}
+				body = &gen.Block{Kind: "condtask", Default: -1, Kids: []*gen.Block{in, gen.T(), gen.T()}, Writes: []string{"ownP"},
+					Conds: []*gen.Cond{nil, {Kind: "var", Var: "v1", Op: ">", Val: 0}, {Kind: "var", Var: "ownP", Op: ">", Val: 0}}}
 			case "sub":
 				body = &gen.Block{Kind: "sub", Default: -1, Kids: []*gen.Block{in}}
 			}
